@@ -13,7 +13,7 @@ base-field helper API.  This tool
           table states what the API means, it is never generated from the bodies).
   check   compares the table with the declarations / definitions of a source tree (rows whose overload is declared but
           has no definition, declarations without a row, rows without a declaration).
-  gen DIR [--inc]  writes Overloads17.tla (the table as a TLA+ function id -> record) into DIR (spec/ for the committed
+  gen DIR [--inc [--lax]]  writes Overloads17.tla (the table as a TLA+ function id -> record) into DIR (spec/ for the committed
           copy) and, with --inc, the generated part of the C++ driver (DIR/<variant>/layout17_rows.inc, one call site
           per row of that build variant; lib/c17.py writes these into its work directory)."""
 import json, os, re, sys, hashlib
@@ -225,24 +225,49 @@ def gen_tla(table):
 KIND_C = dict(none='K_NONE', reg='K_REG', contig='K_CONTIG', stride='K_STRIDE', index='K_INDEX', scalar='K_SCALAR')
 
 
-def gen_inc(table, variant):
-    """one call site per row of this build variant; the static_cast pins the call to the declared signature"""
+def alias_modes(r):
+    """aliasing modes a row's shapes allow (spec: Layout.tla AliasAllowed): sc / sa = the broadcast scalar argument is an lvalue
+    inside the result array / inside the other operand's array; ca / cb = the result IS operand a / b (same pointer or register
+    variable, same stride / index list)"""
+    mem = ('contig', 'stride', 'index')
+    m = []
+    sc = [o for o in 'ab' if r[o]['kind'] == 'scalar']
+    if sc and r['c']['kind'] in mem:
+        m.append('sc')
+    if any(r[o]['kind'] == 'scalar' and r['ab'.replace(o, '')]['kind'] in mem for o in 'ab'):
+        m.append('sa')
+    for o in 'ab':
+        if r[o]['kind'] == r['c']['kind'] and r['c']['kind'] in mem + ('reg',):
+            m.append('c' + o)
+    return m
+
+
+def gen_inc(table, variant, only=None):
+    """one call site per row of this build variant.  CALLSIG(fn, signature) pins the call to the declared signature
+    (static_cast) or, under LAX_SIG, leaves it to overload resolution (the argument expressions have exactly the declared
+    types); only = restrict to these row ids"""
     L = ['// GENERATED by tools/gen_layout17.py from tools/overloads17.json (sha256 %s), variant %s -- do not edit.' % (table_hash(table), variant)]
     for r in table:
-        if r['variant'] != variant or not r['defined']:
+        if r['variant'] != variant or not r['defined'] or (only is not None and r['id'] not in only):
             continue
-        reg = 'r512' if r['L'] == 8 else 'r256'
+        reg = 'reg512()' if r['L'] == 8 else 'reg256()'
         call = r['call']
         args = call[call.index('(') + 1:-1]
         for o, O in (('a', 'x.A'), ('b', 'x.B'), ('c', 'x.C')):
             args = args.replace('{%s.ptr}' % o, '%s.ptr()' % O).replace('{%s.reg}' % o, '%s.%s' % (O, reg)) \
-                       .replace('{%s.val}' % o, '%s.val()' % O).replace('{%s.ref}' % o, '%s.ref()' % O) \
+                       .replace('{%s.val}' % o, '%s.sref()' % O).replace('{%s.ref}' % o, '%s.sref()' % O) \
                        .replace('{%s.stride}' % o, '%s.stride' % O).replace('{%s.idx}' % o, '%s.idxp()' % O)
         def kc(d):
             return 'K_SCALARREF' if d['kind'] == 'scalar' and d.get('byref') else KIND_C[d['kind']]
-        L.append('ROW("%s", OP_%s, %d, %s, %s, %s, %d, static_cast<%s>(&Goldilocks::%s)(%s))'
-                 % (r['id'], r['op'].upper(), r['L'], kc(r['a']), kc(r['b']), kc(r['c']), 1 if r['aligned'] else 0, r['ctype'], r['fn'], args))
+        L.append('ROW("%s", OP_%s, %d, %s, %s, %s, %d, CALLSIG(%s, %s)(%s))'
+                 % (r['id'], r['op'].upper(), r['L'], kc(r['a']), kc(r['b']), kc(r['c']), 1 if r['aligned'] else 0, r['fn'], r['ctype'], args))
     return '\n'.join(L) + '\n'
+
+
+def gen_cfg(lax):
+    """layout17_cfg.inc: build switches of the generated driver (kept out of the compiler flags so that the library objects
+    are shared between the pinned and the lax build)"""
+    return '// GENERATED by tools/gen_layout17.py\n' + ('#define LAX_SIG 1\n' if lax else '')
 
 
 def table_hash(table):
@@ -281,6 +306,7 @@ def main():
             for v in ('avx2', 'avx512'):
                 os.makedirs(os.path.join(out, v), exist_ok=True)
                 open(os.path.join(out, v, 'layout17_rows.inc'), 'w').write(gen_inc(t, v))
+                open(os.path.join(out, v, 'layout17_cfg.inc'), 'w').write(gen_cfg('--lax' in a))
         print('generated Overloads17.tla%s in %s' % (' and <variant>/layout17_rows.inc' if '--inc' in a else '', out))
     return 0
 
